@@ -280,6 +280,41 @@ def hyphen_failures(names, n=1, a=77):
     return bad
 
 
+REPEAT_MIB = """REPEAT-%(n)d-MIB DEFINITIONS ::= BEGIN
+IMPORTS OBJECT-TYPE, Integer32, private, enterprises%(more)s FROM SNMPv2-SMI DisplayString FROM SNMPv2-TC;
+%(decls)srepObj OBJECT-TYPE SYNTAX DisplayString MAX-ACCESS read-only STATUS current DESCRIPTION "d" ::= { enterprises %(a)d 1 }
+repNode OBJECT IDENTIFIER ::= { enterprises %(a)d 2 }
+END
+"""
+REPEATS = {'enterprises': ('enterprises OBJECT IDENTIFIER ::= { private 1 }\n', 'objectidentity'),
+           'DisplayString': ('DisplayString ::= OCTET STRING (SIZE (0..255))\n', 'type'),
+           'mgmt': ('mgmt OBJECT IDENTIFIER ::= { internet 2 }\n', 'objectidentity'),
+           'internet': ('internet OBJECT IDENTIFIER ::= { iso 3 6 1 }\n', 'objectidentity')}
+
+
+def repeat_failures(picked, n=1):
+    """a module that repeats the definition of symbols it also imports (enterprise MIBs that grew out of SMIv1 do): the
+    declarations are declarations - each has its entry, with the class of its kind"""
+    from impl import pipeline
+    import json
+    more = ''.join(', ' + x for x in ('internet', 'mgmt') if x in picked or (x == 'internet' and 'mgmt' in picked))
+    text = REPEAT_MIB % {'n': n, 'a': 900 + n, 'more': more, 'decls': ''.join(REPEATS[x][0] for x in picked)}
+    mn = 'REPEAT-%d-MIB' % n
+    st, out, _ = pipeline.compile_set({mn: text}, backend='json')
+    if str(st.get(mn)) != 'compiled':
+        return ['%s: %s (%s)' % (mn, st.get(mn), getattr(st.get(mn), 'error', None))]
+    doc = json.loads(out[mn])
+    bad = []
+    for x in list(picked) + ['repObj', 'repNode']:
+        rec = doc.get(x)
+        want = REPEATS[x][1] if x in REPEATS else {'repObj': 'objecttype', 'repNode': 'objectidentity'}[x]
+        if rec is None:
+            bad.append('%s: declared symbol %s (also imported) has no entry' % (mn, x))
+        elif rec.get('class') != want or rec.get('name') != x:
+            bad.append('%s: entry %s is %r / %r' % (mn, x, rec.get('name'), rec.get('class')))
+    return bad
+
+
 def names_stream(ctx):
     """IntermediateCodeGen.transOpers on drawn names (letters, digits, hyphens, now and then an underscore) vs Names.trans"""
     from pysmi.codegen.intermediate import IntermediateCodeGen
@@ -306,6 +341,12 @@ def names_stream(ctx):
 def run(ctx):
     res = ctx.res
     names_stream(ctx)
+    for i, picked in enumerate((['enterprises'], ['DisplayString'], ['enterprises', 'DisplayString'], ['mgmt'], ['internet', 'mgmt', 'enterprises'], [])):
+        res.case(('repeats-import', tuple(picked)), bool(picked))
+        res.count('repeats-import')
+        bad = repeat_failures(picked, n=i)
+        if bad:
+            res.oracle_failures.append({'key': 'dropped', 'what': bad[0], 'input': {'repeat_imports': picked, 'n': i}})
     hrng = __import__('random').Random(ctx.seed * 31 + 5)
     for i in range(12 if ctx.tier == 'quick' else 200):
         names = hyphen_names(hrng)
@@ -355,6 +396,9 @@ def search(ctx):
 def replay(payload):
     if 'custom_template' in payload['input']:
         bad = custom_template(payload['input']['custom_template'])
+        return {'fails': bool(bad), 'what': bad}
+    if 'repeat_imports' in payload['input']:
+        bad = repeat_failures(payload['input']['repeat_imports'], n=payload['input'].get('n', 1))
         return {'fails': bool(bad), 'what': bad}
     if 'trans_name' in payload['input']:
         from pysmi.codegen.intermediate import IntermediateCodeGen
